@@ -106,10 +106,17 @@ func (r *reference) String() string {
 	return fmt.Sprintf("${%v}", r.Path)
 }
 
+// activeKey identifies the reference while it is being evaluated: its name and
+// the tree it is written in (the same name in the configuration and in an Env
+// configuration are two settings).
+func (r *reference) activeKey(cfg *Config) string {
+	return fmt.Sprintf("%p %s", cfgRoot(cfg), r.Path.String())
+}
+
 func (r *reference) resolveRef(cfg *Config, opts *options) (value, error) {
 	env := opts.env
 
-	if ok := opts.activeFields.AddNew(r.Path.String()); !ok {
+	if ok := opts.activeFields.AddNew(r.activeKey(cfg)); !ok {
 		if opts.cycles != nil {
 			*opts.cycles++
 		}
@@ -266,7 +273,7 @@ func (e *expansionAlt) eval(cfg *Config, opts *options) (string, error) {
 	opts.activeFields = newFieldSet(parentFields)
 	tmp, err := ref.resolve(cfg, opts)
 	opts.activeFields = parentFields
-	if err != nil && isCyclicError(err) && parentFields.Has(ref.Path.String()) {
+	if err != nil && isCyclicError(err) && parentFields.Has(ref.activeKey(cfg)) {
 		// the setting is being evaluated right now, so it is set: the answer
 		// does not depend on where the evaluation was started
 		return e.right.eval(cfg, opts)
